@@ -1,6 +1,6 @@
 (* wire encoding of C15 cases (H.264 part and shared helpers) *)
 From Coq Require Import ZArith List Bool.
-From V Require Import Val Bytes C15BitFmt C15Ebsp C15H264.
+From V Require Import Val Bytes C15BitFmt C15Ebsp C15H264 C15Pure.
 Import ListNotations.
 Open Scope Z_scope.
 
@@ -26,6 +26,13 @@ Definition obs_wellformed (v : val) : bool :=
   | _ => false
   end.
 
+(* the purity observation on the wire: (first result, backing array after both calls, second result) *)
+Definition enc_twice {O : Type} (enc : O -> val) (t : O * list Z * O) : val :=
+  let '(o1, buf, o2) := t in VL [enc o1; VB buf; enc o2].
+Definition dec_twice {O : Type} (dec : val -> O) (v : val) : O * list Z * O :=
+  (dec (nthv 0 v), as_bytes (nthv 1 v), dec (nthv 2 v)).
+Definition both_wf (wf : val -> bool) (v : val) : bool := wf (nthv 0 v) && wf (nthv 2 v).
+
 (* record -> NAL unit bytes produced by the encoder of the theorem; () when not well-ranged *)
 Definition x_C15_h264_emit (c : val) : val :=
   match emit std_h264_sps (dec_env c) env0 with
@@ -33,13 +40,23 @@ Definition x_C15_h264_emit (c : val) : val :=
   | None => VL []
   end.
 (* case = (record nal) *)
-Definition x_C15_h264_run (c : val) : val := enc_vobs (go_h264_obs (as_bytes (nthv 1 c))).
+Definition x_C15_h264_run (c : val) : val := enc_twice enc_vobs (twice go_h264_obs (as_bytes (nthv 1 c))).
 Definition x_C15_h264_ok (v : val) : val :=
   let c := nthv 0 v in let o := nthv 1 v in
+  let nal := as_bytes (nthv 1 c) in
+  vbool (both_wf obs_wellformed o &&
+         pure_ok vobs_eqb (ok_h264 (dec_env (nthv 0 c)) nal) nal (dec_twice dec_vobs o)).
+(* arbitrary bytes: an error or a result, twice the same, buffer untouched *)
+Definition x_C15_h264_bytes (c : val) : val := enc_twice enc_vobs (twice go_h264_obs (as_bytes c)).
+Definition x_C15_total_ok (v : val) : val :=
+  let o := nthv 1 v in
+  vbool (both_wf obs_wellformed o &&
+         pure_ok vobs_eqb (fun _ => true) (as_bytes (nthv 0 v)) (dec_twice dec_vobs o)).
+(* the SDP glue keeps the single observation *)
+Definition x_C15_glue_ok (v : val) : val :=
+  let c := nthv 0 v in let o := nthv 1 v in
   vbool (obs_wellformed o && ok_h264 (dec_env (nthv 0 c)) (as_bytes (nthv 1 c)) (dec_vobs o)).
-(* arbitrary bytes *)
-Definition x_C15_h264_bytes (c : val) : val := enc_vobs (go_h264_obs (as_bytes c)).
-Definition x_C15_total_ok (v : val) : val := vbool (obs_wellformed (nthv 1 v)).
+Definition x_C15_glue_total_ok (v : val) : val := vbool (obs_wellformed (nthv 1 v)).
 (* the decoder before the repairs, for the replayed witnesses *)
 Definition x_C15_h264_prefix (c : val) : val :=
   enc_vobs (vobs_of (go_h264_decode_with read_se_d27 go_width_d28 go_height_d28 (as_bytes c))).
